@@ -400,12 +400,26 @@ type outcome struct {
 	foreign  int
 }
 
-func (e *env) run(p *program, pl plan) *outcome {
-	e.srv.reset(pl)
+// run executes Transact(db, steps...) under the fault plan. prefix > 0: the caller keeps its
+// steps in one slice and first runs a transaction over the first `prefix` of them
+// (Transact(db, steps[:prefix]...), fault-free, not judged), then the one over the whole slice -
+// the step list is the caller's, whatever Transact does with its variadic parameter.
+func (e *env) run(p *program, pl plan, prefix int) *outcome {
 	fns := make([]gormx.GormProcFn, len(p.top))
 	for i, n := range p.top {
 		fns[i] = n.build(e.srv)
 	}
+	if prefix > 0 && prefix < len(fns) {
+		e.srv.reset(plan{})
+		func() {
+			defer func() { _ = recover() }()
+			_ = gormx.Transact(e.db, fns[:prefix]...)
+		}()
+		for _, l := range p.leaves {
+			l.ran, l.returned, l.payload = 0, nil, nil
+		}
+	}
+	e.srv.reset(pl)
 	o := &outcome{}
 	func() {
 		returned := false
@@ -621,12 +635,13 @@ func judge(p *program, pl plan, o *outcome) (fs []finding) {
 // ---------------------------------------------------------------- bookkeeping shared by all kinds
 
 type caseState struct {
-	k       *engine.Case
-	mode    envMode
-	e       *env
-	failed  map[string]int
-	logged  int
-	aborted bool
+	prefixes bool // kinds mixed / sequence: some transactions are preceded by one over a prefix of the same step slice
+	k        *engine.Case
+	mode     envMode
+	e        *env
+	failed   map[string]int
+	logged   int
+	aborted  bool
 }
 
 func newState(k *engine.Case) *caseState { return newStateMode(k, modeSQL) }
@@ -688,7 +703,12 @@ func (st *caseState) evaluate(p *program, pl plan, logIt bool) {
 	if st.aborted {
 		return
 	}
-	o := st.e.run(p, pl)
+	prefix := 0
+	if st.prefixes && len(p.top) >= 2 && k.R.Intn(3) == 0 {
+		prefix = 1 + k.R.Intn(len(p.top)-1)
+		k.Count("transactions_after_a_prefix_transaction", 1)
+	}
+	o := st.e.run(p, pl, prefix)
 	fs := judge(p, pl, o)
 	k.Evals(1)
 
@@ -1039,6 +1059,7 @@ func mixedCase(k *engine.Case) {
 	mode := envMode(k.R.Intn(4))
 	k.Count("mixed_cases_"+modeNames[mode], 1)
 	st := newStateMode(k, mode)
+	st.prefixes = true
 	defer st.done()
 	for i := 0; i < 25 && !st.aborted; i++ {
 		p := randomProgram(k, 10)
@@ -1055,6 +1076,7 @@ func sequenceCase(k *engine.Case) {
 	mode := envMode(k.R.Intn(4))
 	k.Count("sequence_cases_"+modeNames[mode], 1)
 	st := newStateMode(k, mode)
+	st.prefixes = true
 	defer st.done()
 	n := 4 + k.R.Intn(12)
 	for i := 0; i < n && !st.aborted; i++ {
